@@ -234,9 +234,12 @@ def check(an, rep, tier):
             st, detail = tt_wellformed(rv, modes_from('Y0.n')(r))
             if st == 'ok':
                 # ranks equal to those of Y0
-                from .common import cmp3
+                # (the ranks and mode sizes of the initial tensor are free
+                # inputs, over-ranked cores included: a bond that is the
+                # initial rank only when the rank is small enough is not it)
+                from .common import cmp3_free
                 for k, c in enumerate(rv.items[:-1]):
-                    c3 = cmp3(c.dims[2], Poly.sym('Y0.r%d' % (k + 1)))
+                    c3 = cmp3_free(c.dims[2], Poly.sym('Y0.r%d' % (k + 1)))
                     if c3 != 'ok' and st != 'violation':
                         st, detail = c3, 'bond %d is %r, Y0 has %s' % (
                             k + 1, c.dims[2], 'Y0.r%d' % (k + 1))
